@@ -62,9 +62,17 @@ def search_spec(ctx, res, t):
     if t[0] == 'field' and t[2] == '0' and t[1][0] == 'downcast':
         t = strip_transparent(t[1][1])
     if t[0] == 'call' and t[1].endswith('Iterator>::position') or (t[0] == 'call' and t[1].endswith('::position')):
-        it = strip_transparent(t[2][0])
-        over_nodes = any(isinstance(x, tuple) and x and x[0] == 'field' and x[2] in ('nodes', '_ref__self__nodes') for x in lib.term_walk(it))
-        return [pred_kind(ctx, res, t[2][1]) if over_nodes else 'not-over-nodes']
+        it = t[2][0]
+        while isinstance(it, tuple) and it[0] in ('ref', 'deref'):
+            it = it[1]
+        # the search must range over the whole slot array: iter() directly on `nodes`, no sub-slice, no adaptor
+        whole = False
+        if it[0] == 'call' and it[1].endswith('<impl [T]>::iter') or (it[0] == 'call' and it[1].endswith('::iter')):
+            src = it[2][0]
+            while isinstance(src, tuple) and src[0] in ('ref', 'deref', 'cast'):
+                src = src[1]
+            whole = src[0] == 'field' and src[2] in ('nodes', '_ref__self__nodes') and not find_calls(it, '::index')
+        return [pred_kind(ctx, res, t[2][1]) if whole else 'not-over-all-slots']
     if t[0] == 'call' and t[1].endswith('::or_else'):
         first = search_spec(ctx, res, t[2][0])
         cl = t[2][1]
@@ -342,6 +350,7 @@ def rule_who_mutates(ctx, res):
 
 
 def run(ctx, res):
+    common.rule_closed_world(ctx, res)
     common.rule_who_admits(ctx, res)
     common.rule_admission_filter(ctx, res)
     rule_shape(ctx, res)
